@@ -125,6 +125,34 @@ def main(prop):
         ccov, cs, ct = conform_stage.run(files, thorough)
         lcov.update(ccov)
         states += cs; trans += ct
+    if prop == 'C06':
+        # the same snapshot properties at scale, without the scheduler: fast typing over 20 000+ items, every snapshot the
+        # UI gets to see while runs are cancelled (often inside the parallel sort) validated against the unique order
+        sdir = os.path.join(wd, 'scale')
+        import shutil as _sh
+        _sh.rmtree(sdir, ignore_errors=True)
+        p = nvh(['worker-order', '--tier', tier(), '--seed', seed(), '--shards', NCPU, '--out', sdir, '--stress-only', '1'], timeout=7200)
+        sgen = json.loads(p.stdout.strip().splitlines()[-1])
+        sfiles = [f for f in sorted(glob.glob(os.path.join(sdir, 'worker-*.ndjson'))) if os.path.getsize(f) > 0]
+        souts = run_shards('WorkerOrder.tla', sfiles, {}, timeout=7000 if thorough else 1500, xmx='6g')
+        stot, swant, sj = {'runs': 0, 'matches': 0}, {}, {}
+        for f, st, lines in souts:
+            states += st['distinct']; trans += st['generated']
+            for j in lines:
+                if j.get('ev') == 'DONE':
+                    stot['runs'] += j['stat']['runs']; stot['matches'] += j['stat']['matches']
+                elif j.get('ev') == 'JUDGE':
+                    swant.setdefault(f, set()).add(j['id']); sj[(f, j['id'])] = j
+        if stot['runs'] != sgen['records']:
+            die_tool('scale stage record count mismatch: harness %d, TLC %d' % (sgen['records'], stot['runs']))
+        srecs = fetch_records(swant)
+        for key, j in sorted(sj.items(), key=lambda x: x[0][1]):
+            r = srecs.get(key, {})
+            txt = '%s: snapshot seen during fast typing over %s items (pattern %r, %s threads): count=%s, %d matches, first %s' % (
+                ','.join(sorted(j['viol'])), r.get('n'), r.get('pattern'), r.get('threads'), r.get('count'), len(r.get('matches', [])), r.get('matches', [])[:6])
+            r = dict(r, matches=r.get('matches', [])[:200] + ['...'], items=r.get('items', [])[:200] + ['...'])
+            violations.append(({'kind': 'worker-order', 'property': prop, 'clauses': j['viol'], 'record': r, 'seed': seed(), 'tier': tier()}, txt))
+        lcov.update({'scale_snapshots_validated': stot['runs'], 'scale_matches_compared': stot['matches']})
     if prop == 'C20':
         import lifecycle_stage
         lv, lcov2, ls, lt, ln = lifecycle_stage.run(prop, wd, thorough)
